@@ -233,6 +233,63 @@ func runC02(c *explore.Ctx) {
 		forEachBlindDoc(c, s, n, func(d kitDoc) { s.Transitions++; c02Doc(c, s, d) })
 		s.WallS = time.Since(t0).Seconds()
 	}
+	// a schema loaded through validator.LoadSchema, which does not prepend the prelude: it declares its own scalars and
+	// loads, but the introspection types the loader's __schema / __type fields and the walker's __typename name are absent
+	nb := c.Pick(6, 8)
+	s = c.Sub("no-prelude", fmt.Sprintf("a self-contained type system loaded by validator.LoadSchema (no prelude: no __Schema, __Type, no built-in directives) × every profile document and every G¹ sentence of ≤ %d tokens with every assignment of {__typename, __schema, __type, types, name, q, Query, String, F, nope} to its name positions", nb),
+		"Validate returns normally (no panic, bounded steps and depth), twice", "documents with at least one error")
+	if s != nil {
+		t0 := time.Now()
+		bare, lerr := validator.LoadSchema(&ast.Source{Name: "bare.graphql", Input: `scalar Int scalar Float scalar String scalar Boolean scalar ID
+directive @include(if: Boolean!) on FIELD | FRAGMENT_SPREAD | INLINE_FRAGMENT
+type Query { q(a: Int): Int node: Node pet: Pet types: [Pet] name: String search: Result }
+interface Node { id: ID! }
+type Pet implements Node { id: ID! name: String kind: Kind }
+union Result = Pet
+enum Kind { DOG CAT }`})
+		if lerr != nil {
+			c.Report(s, explore.Violation{Key: "load/no-prelude-schema-rejected", Input: explore.J(map[string]string{"err": lerr.Error()}), Rendered: lerr.Error(), Detail: "validator.LoadSchema rejects a self-contained type system: " + lerr.Error()})
+		} else {
+			visit := func(d kitDoc) {
+				s.Transitions++
+				s.Executions++
+				explore.Crumb(s.Name, d.Doc)
+				doc, perr := parser.ParseQuery(&ast.Source{Name: "q.graphql", Input: d.Doc})
+				if perr != nil {
+					s.Skipped++
+					return
+				}
+				for round := 0; round < 2; round++ {
+					var errs gqlerror.List
+					r := guarded(c02DocBudget, 5000, func() { errs = validator.Validate(bare, doc) })
+					if r.Panicked {
+						key := "panic-no-prelude site=" + r.Site + " msg=" + normMsg(r.PanicVal)
+						if r.Budget {
+							key = "budget validate no-prelude site=" + r.Site
+						}
+						c.Report(s, explore.Violation{Key: key, Input: explore.J(d), Rendered: d.Doc, Detail: "Validate against a schema loaded without the prelude: " + r.PanicVal + "\n" + trimStack(r.Stack)})
+						s.Outcome("panic")
+						return
+					}
+					if round == 0 {
+						s.Validated++
+						if len(errs) == 0 {
+							s.Outcome("valid")
+						} else {
+							s.Nontrivial++
+							s.Outcome("invalid " + errs[0].Rule)
+						}
+					}
+				}
+			}
+			forEachProfileDoc(c, s, "", visit)
+			saved := kitVocab
+			kitVocab = []string{"__typename", "__schema", "__type", "types", "name", "q", "Query", "String", "F", "nope"}
+			forEachBlindDoc(c, s, nb, visit)
+			kitVocab = saved
+		}
+		s.WallS = time.Since(t0).Seconds()
+	}
 	k := c.Pick(2, 3)
 	s = c.Sub("schemas", fmt.Sprintf("every type system of the schema kit with ≤ %d menu items: loaded; when it loads, %d type-blind documents are validated against it", k, len(c02BlindDocs)),
 		"LoadSchema returns normally with schema xor error within its step budget; Validate against every loaded schema returns normally", "type systems that load")
